@@ -432,6 +432,9 @@ func (sh *shard) execUpd(tc tcase, stranger bool, doProbe bool) {
 	if _, isUpd := msg.(*client.ChannelUpdateMsg); !isUpd {
 		wd = slowWatchdog
 	}
+	if tc.wd > 0 {
+		wd = tc.wd
+	}
 	var o obs
 	var pv interface{}
 	t0 := time.Now()
@@ -770,7 +773,7 @@ func (f *fctx) actingContext(nl int) {
 	f.restore(channel.Acting, channel.Transaction{}, f.fullTx(f.genState(nl, false)))
 }
 
-func runShard(prop string, seed int64, idx int, n int, slow int, realOpen bool) *shard {
+func runShard(prop string, seed int64, idx int, n int, slow int, realOpen, unawaited bool) *shard {
 	f := newFctx(seed)
 	sh := &shard{f: f, prop: prop}
 	r := f.r
@@ -877,6 +880,11 @@ func runShard(prop string, seed int64, idx int, n int, slow int, realOpen bool) 
 			}
 		}
 	}
+	if unawaited {
+		// the known finding, once per run independent of the seed
+		f.actingContext(0)
+		sh.execUpd(f.unawaitedCase(f.snapshot().Current.State), false, doProbe)
+	}
 	// the slow cases: proposals that pass validation and wait for their twin
 	for k := 0; k < slow; k++ {
 		if k%2 == 0 {
@@ -954,7 +962,7 @@ func run(prop string, seed int64, tier, out string) {
 					slow = 2
 				}
 			}
-			shards[i] = runShard(prop, seeds[i], i, perShard, slow, i%3 == 0)
+			shards[i] = runShard(prop, seeds[i], i, perShard, slow, i%3 == 0, prop == "C12" && i == slowShards)
 		}(i)
 	}
 	wg.Wait()
